@@ -14,7 +14,10 @@ Step C  THE PROPERTY IS OBSERVED HERE: a fixed battery plus random batteries are
         head_content name is 'headcontent_' + hashlib.sha1(rendered content); over all pairs of
         the battery equal content <=> equal name; a document includes equal content once and
         different content separately, in first-occurrence order; extracted serialised
-        dependencies come in first-occurrence order of their distinct payload strings.
+        dependencies come in first-occurrence order of their distinct payload strings; every item
+        re-rendered at the end of the in-process run equals its first rendering and the rendering
+        obtained without any history (isolated child / fresh interpreter); the URLs written for a
+        package-sourced dependency are <lib_prefix>/<name>[-<version>]/<file> of that dependency.
 """
 from __future__ import annotations
 
@@ -42,6 +45,8 @@ V_SPLIT = "equal head_content content got different names"
 V_DOC = "document does not include equal head_content once / different content separately in first-occurrence order"
 V_EXTRACT = "extracted serialised dependencies are not in first-occurrence order of their distinct payloads"
 V_UNIQUE = "unique() is not first-occurrence order"
+V_HISTORY = "rendering depends on what was built or rendered earlier in the process"
+V_URL = "a dependency's URLs in the document are not <lib_prefix>/<name>[-<version>]/<file> of that dependency"
 
 ERR_NAME = {1: "RuntimeError", 2: "TypeError", 3: "TypeError", 4: "KeyError", 5: "ValueError",
             6: "RuntimeError", 7: "RecursionError"}
@@ -167,11 +172,74 @@ def fixed_battery() -> list[dict]:
                            ["<div>", "</div>", "text", ""]))
     items.append(text_item("fix:text-reversed", list(reversed(P)) + P, [], [" "]))
     items.append(text_item("fix:text-none", [], [{"name": "given", "version": "1.0"}], ["<p>no deps</p>"]))
+    items.extend(pkg_battery())
     items.append({"id": "fix:resolve", "kind": "resolve",
                   "deps": [{"name": n, "version": v} for n, v in coll + list(reversed(coll))]})
     items.append({"id": "fix:unique", "kind": "unique",
                   "values": ["b", "a", "b", "zeta", "a", "c", "10", "B", "c", "", "omega", "b", "é", "d", "e", "f", "a"]})
     return items
+
+
+# package-sourced dependencies: the files shipped in htmltools/lib
+PKG_SUBDIRS = {"lib/react": "react.production.min.js", "lib/react-dom": "react-dom.production.min.js",
+               "lib": "react/react.production.min.js"}
+DOC_OPTS = [["lib", True], ["lib", False], [None, True], [None, False], ["static/libs", True], ["", True]]
+
+
+def pkg_dep(name: str, version: str, subdir: str, extra: bool = False) -> list:
+    p = {"name": name, "version": version, "source": {"package": "htmltools", "subdir": subdir},
+         "script": {"src": PKG_SUBDIRS[subdir]}}
+    if extra:
+        p["stylesheet"] = [{"href": "theme.css"}]
+    return ["M", p]
+
+
+def pkg_item(iid: str, deps: list, opts: list, wrap: str = "div") -> dict:
+    """one document per item, so that every process meets these dependencies in its own order"""
+    kids = [["T", "app"]] + deps
+    return {"id": iid, "kind": "tree", "descs": [G(wrap, True, [], kids)], "doc_kw": [], "doc_opts": opts,
+            "_pkg": True}
+
+
+def pkg_battery() -> list[dict]:
+    items = []
+    specs = [("react", "17.0.2", "lib/react"), ("react", "18.2.0", "lib/react"), ("react", "16.14.0", "lib/react"),
+             ("react", "17.0.2", "lib/react-dom"), ("react", "17.0.2", "lib"), ("react-dom", "17.0.2", "lib/react-dom"),
+             ("react-dom", "18.2.0", "lib/react-dom"), ("react-dom", "18.2", "lib/react-dom"), ("react", "18.2.0", "lib")]
+    for k, (n, v, sd) in enumerate(specs):
+        items.append(pkg_item(f"fix:pkg-{k}-{n}-{v}-{sd.replace('/', '_')}", [pkg_dep(n, v, sd, extra=k % 2 == 1)],
+                              DOC_OPTS[k % 2::2] + DOC_OPTS[:1]))
+    # two of them in one document (different names), and the colliding pair (resolved to the higher)
+    items.append(pkg_item("fix:pkg-two", [pkg_dep("react", "18.2.0", "lib/react"),
+                                          pkg_dep("react-dom", "16.0.0", "lib/react-dom")], DOC_OPTS))
+    items.append(pkg_item("fix:pkg-collide", [pkg_dep("react", "17.0.2", "lib/react"),
+                                              pkg_dep("react", "17.10.0", "lib/react")], DOC_OPTS, wrap="body"))
+    return items
+
+
+def rand_pkg_item(rng, iid: str) -> dict:
+    deps = []
+    for name in rng.sample(["react", "react-dom", "r"], rng.choice([1, 1, 2])):
+        deps.append(pkg_dep(name, rng.choice(["1.0", "1.1", "2.0", "17.0.2", "18.2.0"]),
+                            rng.choice(sorted(PKG_SUBDIRS)), extra=rng.random() < 0.3))
+    return pkg_item(iid, deps, rng.sample(DOC_OPTS, rng.choice([1, 2, 3])), wrap=rng.choice(["div", "body", "span"]))
+
+
+def expected_urls(item: dict, lib_prefix, include_version: bool) -> list[str]:
+    """written from the documented layout: <lib_prefix>/<name>-<version>/<file>"""
+    import posixpath
+    out = []
+    for d in item["descs"][0][4]:
+        if d[0] != "M":
+            continue
+        p = d[1]
+        href = p["name"] + ("-" + p["version"] if include_version else "")
+        if lib_prefix:
+            href = posixpath.join(lib_prefix, href)
+        out.append('<script src="%s"></script>' % posixpath.join(href, p["script"]["src"]))
+        for st in p.get("stylesheet", []):
+            out.append('<link href="%s" rel="stylesheet"/>' % posixpath.join(href, st["href"]))
+    return out
 
 
 # ------------------------------------------------------------------------------------------
@@ -280,7 +348,9 @@ def rand_battery(rng, n: int, tag: str) -> list[dict]:
     for i in range(n):
         r = rng.random()
         iid = f"{tag}:{i}"
-        if r < 0.55:
+        if r < 0.10:
+            items.append(rand_pkg_item(rng, iid))
+        elif r < 0.55:
             items.append(rand_tree_item(rng, iid, malformed=False))
         elif r < 0.62:
             items.append(rand_tree_item(rng, iid, malformed=True))
@@ -413,13 +483,13 @@ def wire(items: list[dict]) -> str:
                       ensure_ascii=True)
 
 
-def run_worker(battery_json: str, hashseed: str, order_seed: int) -> dict:
+def run_worker(battery_json: str, hashseed: str, order_seed: int, isolated: bool = False) -> dict:
     env = dict(os.environ)
     env["PYTHONHASHSEED"] = hashseed
     env["PYTHONPATH"] = REPO
     env["VERIF_REPO"] = REPO
     try:
-        p = subprocess.run([PY, WORKER, str(order_seed)], input=battery_json, stdout=subprocess.PIPE,
+        p = subprocess.run([PY, WORKER, str(order_seed)] + (["--isolated"] if isolated else []), input=battery_json, stdout=subprocess.PIPE,
                            stderr=subprocess.PIPE, env=env, text=True, timeout=900, cwd="/")
     except subprocess.TimeoutExpired:
         return {"failed": "timeout"}
@@ -496,6 +566,23 @@ def check_reference(ctx: Ctx, items: list[dict], ref: dict) -> list:
             if got != want or counts != expect_counts:
                 ctx.violation(V_DOC, it, {"impl_output": {"names": got, "occurrences": counts},
                                           "expected": {"names": want, "occurrences": expect_counts}})
+        if it.get("_pkg") and o.get("doc", ["err"])[0] == "ok":
+            # colliding names in one document: only the resolved (kept) dependencies are written
+            kept = {r[2] for r in o["doc_deps"]}
+            settings = [["lib", True, o["_doc_raw"]]] + [
+                [v[0], v[1], raw] for v, raw in zip(o.get("doc_variants", []), o.get("_doc_variants_raw", []))
+                if v[2][0] == "ok"]
+            metas = [d for d in it["descs"][0][4] if d[0] == "M"]
+            for lib_prefix, incl, html in settings:
+                sub = dict(it)
+                sub["descs"] = [G("x", True, [], [m for i, m in enumerate(metas) if i in kept])]
+                want = expected_urls(sub, lib_prefix, incl)
+                missing = [u for u in want if html.count(u) != 1]
+                if missing:
+                    ctx.violation(V_URL, {k: v for k, v in it.items() if not k.startswith("_")},
+                                  {"lib_prefix": lib_prefix, "include_version": incl, "expected": missing,
+                                   "impl_output": [l.strip() for l in html.splitlines()
+                                                   if "<script src" in l or "<link href" in l]})
         if it["kind"] == "text" and o["text"][0] == "ok":
             r = o["text"][1]
             ext = []
@@ -646,11 +733,21 @@ def correspondence(ctx: Ctx, items: list[dict], ref: dict, label: str) -> None:
 
 # ------------------------------------------------------------------------------------------
 def process_battery(ctx: Ctx, items: list[dict], configs: list[tuple[str, int]], label: str,
-                    pool: ThreadPoolExecutor) -> dict:
+                    pool: ThreadPoolExecutor, n_fresh: int = 12) -> dict:
     ids = [it["id"] for it in items]
     assert len(set(ids)) == len(ids)
     bj = wire(items)
     futures = [pool.submit(run_worker, bj, hs, os_) for hs, os_ in configs]
+    # references without history: (a) every item in its own forked child of a process that has
+    # only imported htmltools (two shards), (b) a sample -- all package-sourced items first -- each
+    # in a really fresh interpreter that is given that one item only
+    shards = [items[0::2], items[1::2]] if len(items) > 1 else [items]
+    iso_futures = [pool.submit(run_worker, wire(sh), configs[k % len(configs)][0], 1 + k, True)
+                   for k, sh in enumerate(shards)]
+    fresh_items = ([it for it in items if it.get("_pkg") and it["id"].startswith("fix:")] +
+                   [it for it in items if not it.get("_pkg")][:: max(1, len(items) // n_fresh)])[: n_fresh + 11]
+    fresh_futures = [pool.submit(run_worker, wire([it]), configs[k % len(configs)][0], 1)
+                     for k, it in enumerate(fresh_items)]
     # in-process reference (natural order) while the workers run
     ref = {it["id"]: W.observe(jl({k: v for k, v in it.items() if not k.startswith("_")}), raw=True)
            for it in items}
@@ -690,6 +787,48 @@ def process_battery(ctx: Ctx, items: list[dict], configs: list[tuple[str, int]],
                                "expected": {k: ref_plain[iid].get(k) for k in fields},
                                "note": "expected = in-process run (PYTHONHASHSEED=%s, natural order)"
                                        % os.environ.get("PYTHONHASHSEED")})
+    # ---- history: at the end of the run (everything has been built and rendered in this process)
+    # every item once more; against its first rendering and against the history-free references
+    def plain(it):
+        return {k: v for k, v in it.items() if not k.startswith("_")}
+
+    def differing(a, b):
+        return sorted(k for k in set(a or {}) | set(b or {}) if (a or {}).get(k) != (b or {}).get(k))
+    for it in reversed(items):
+        end = jl(W.strip_raw(W.observe(jl(plain(it)))))
+        ctx.count({"item": it["id"], "battery": label, "where": "in-process, end of run"}, nontrivial(it),
+                  f"{it['kind']} (in-process, re-rendered at the end)")
+        if end != ref_plain[it["id"]]:
+            fields = differing(end, ref_plain[it["id"]])
+            ctx.violation(V_HISTORY, plain(it),
+                          {"fields": fields, "impl_output": {k: end.get(k) for k in fields},
+                           "expected": {k: ref_plain[it["id"]].get(k) for k in fields},
+                           "note": "impl_output = the item rendered again at the end of the in-process run; "
+                                   "expected = its first rendering in the same process"})
+    iso_failed = []
+    for what, futs, groups in (("forked child of a process that rendered nothing", iso_futures, shards),
+                               ("fresh interpreter given this item only", fresh_futures, [[x] for x in fresh_items])):
+        for fu, group in zip(futs, groups):
+            out = fu.result()
+            if "failed" in out:
+                iso_failed.append({"what": what, "why": out["failed"]})
+                continue
+            probes.add(out["meta"]["hash_probe"])
+            for it in group:
+                got = out["results"].get(it["id"])
+                ctx.count({"item": it["id"], "battery": label, "where": what}, nontrivial(it),
+                          f"{it['kind']} ({'isolated child' if futs is iso_futures else 'fresh interpreter'})")
+                if got != ref_plain[it["id"]]:
+                    fields = differing(got, ref_plain[it["id"]])
+                    ctx.violation(V_HISTORY, plain(it),
+                                  {"fields": fields, "impl_output": {k: ref_plain[it["id"]].get(k) for k in fields},
+                                   "expected": {k: (got or {}).get(k) for k in fields},
+                                   "note": "impl_output = in-process run after %d other items; expected = %s"
+                                           % (ids.index(it["id"]), what)})
+    ctx.obligation(f"history-free reference runs completed ({label}: every item in an isolated child, "
+                   f"{len(fresh_items)} items in fresh interpreters)", not iso_failed)
+    if iso_failed:
+        ctx.extra["proof_log_tail"] = json.dumps(iso_failed[:2])[-2500:]
     ctx.obligation(f"worker processes completed ({label}, {len(configs)} processes)", not failed)
     if failed:
         ctx.extra["proof_log_tail"] = json.dumps(failed[:2])[-2500:]
@@ -707,9 +846,9 @@ def run(ctx: Ctx, only_items: list[dict] | None = None) -> None:
                 "_resolve_dependencies and unique() inputs) plus random batteries from the seeded PRNG (random trees "
                 "depth <= 4 with dependencies, MetadataNodes, head_content nodes and tagifiable objects; tag-only "
                 "documents over the head_content pool; texts with 2..16 serialised dependencies drawn with repetition; "
-                "dependency lists; string lists) plus, bounded-exhaustively, every ordered pair (thorough: triple) of pool payloads in one document.  Every battery is built and rendered in-process and in N interpreter "
+                "dependency lists; string lists; package-sourced dependencies (htmltools/lib) with colliding names and different versions, colliding (name, version) with different subdirs, one document per item, rendered under several lib_prefix / include_version settings) plus, bounded-exhaustively, every ordered pair (thorough: triple) of pool payloads in one document.  Every battery is built and rendered in-process and in N interpreter "
                 "processes with distinct PYTHONHASHSEED (0, 1, random, 4294967295, PRNG-drawn) each in its own "
-                "permutation of the items.  An evaluation = one item in one process; non-trivial = the item has a "
+                "permutation of the items; in addition every item is re-rendered in-process at the end of the run and rendered without history (in a forked child of a process that rendered nothing; a sample, all fixed package-sourced items included, in a fresh interpreter given that item only).  An evaluation = one item in one process; non-trivial = the item has a "
                 "dependency / head_content / >= 2 attributes or is a text / list item; distinct = (item, process).")
     ctx.assumptions = [
         "process-level determinism is observed on the sampled hash seeds and orders, not proved (DESIGN C18: PARTIAL)",
@@ -737,11 +876,11 @@ def run(ctx: Ctx, only_items: list[dict] | None = None) -> None:
             if only_items is not None:
                 items = only_items
             else:
-                items = fixed + rand_battery(rng, ctx.budget(1000, 2500), f"rand{b}")
+                items = fixed + rand_battery(rng, ctx.budget(800, 2500), f"rand{b}")
                 if b == 0:
                     items = items + exhaustive_hc_items(ctx.budget(2, 3))
             configs = [(seeds[b * per + j], rng.randrange(1, 2**31)) for j in range(per)]
-            r = process_battery(ctx, items, configs, f"battery {b}", pool)
+            r = process_battery(ctx, items, configs, f"battery {b}", pool, n_fresh=ctx.budget(12, 96))
             probes |= r["probes"]
             total["diffs"] += r["diffs"]
             total["processes"] += r["processes"]
@@ -771,6 +910,12 @@ def replay(ctx: Ctx, path: str) -> None:
     if isinstance(c, dict) and "kind" in c and "id" in c:
         ensure_payloads(c)
         ctx.tier = "quick"
-        run(ctx, only_items=[c])
+        # the item inside the fixed battery: a failure that needs a history (something built or
+        # rendered before it) does not show on the item alone
+        fixed = fixed_battery()
+        if c["id"] in {it["id"] for it in fixed}:
+            run(ctx, only_items=fixed)
+        else:
+            run(ctx, only_items=fixed + [c])
     else:
         run(ctx)
